@@ -14,7 +14,7 @@ def __init__(self, initial_control_state='ATTEMPT_ONLINE', initial_online_contro
     self.online_local = secsgem.common.State(ControlState.ONLINE_LOCAL, 'ONLINE_LOCAL')
     self.online_remote = secsgem.common.State(ControlState.ONLINE_REMOTE, 'ONLINE_REMOTE')
     self._current_state = self.init
-    self._transitions = [secsgem.common.Transition('start', self.init, self.control), secsgem.common.Transition('initial_offline', self.control, self.offline), secsgem.common.Transition('initial_equipment_offline', self.offline, self.equipment_offline), secsgem.common.Transition('initial_attempt_online', self.offline, self.attempt_online), secsgem.common.Transition('initial_host_offline', self.offline, self.host_offline), secsgem.common.Transition('switch_online', self.equipment_offline, self.attempt_online), secsgem.common.Transition('attempt_online_fail_equipment_offline', self.attempt_online, self.equipment_offline), secsgem.common.Transition('attempt_online_fail_host_offline', self.attempt_online, self.host_offline), secsgem.common.Transition('attempt_online_success', self.attempt_online, self.online), secsgem.common.Transition('switch_offline', [self.online, self.online_local, self.online_remote], self.equipment_offline), secsgem.common.Transition('initial_online', self.control, self.online), secsgem.common.Transition('initial_online_local', self.online, self.online_local), secsgem.common.Transition('initial_online_remote', self.online, self.online_remote), secsgem.common.Transition('switch_online_local', self.online_remote, self.online_local), secsgem.common.Transition('switch_online_remote', self.online_local, self.online_remote), secsgem.common.Transition('remote_offline', [self.online, self.online_local, self.online_remote], self.host_offline), secsgem.common.Transition('remote_online', self.host_offline, self.online)]
+    self._transitions = [secsgem.common.Transition('start', self.init, self.control), secsgem.common.Transition('initial_offline', self.control, self.offline), secsgem.common.Transition('initial_equipment_offline', self.offline, self.equipment_offline), secsgem.common.Transition('initial_attempt_online', self.offline, self.attempt_online), secsgem.common.Transition('initial_host_offline', self.offline, self.host_offline), secsgem.common.Transition('switch_online', self.equipment_offline, self.attempt_online), secsgem.common.Transition('attempt_online_fail_equipment_offline', self.attempt_online, self.equipment_offline), secsgem.common.Transition('attempt_online_fail_host_offline', self.attempt_online, self.host_offline), secsgem.common.Transition('attempt_online_success', self.attempt_online, self.online), secsgem.common.Transition('switch_offline', [self.online, self.online_local, self.online_remote, self.host_offline], self.equipment_offline), secsgem.common.Transition('initial_online', self.control, self.online), secsgem.common.Transition('initial_online_local', self.online, self.online_local), secsgem.common.Transition('initial_online_remote', self.online, self.online_remote), secsgem.common.Transition('switch_online_local', self.online_remote, self.online_local), secsgem.common.Transition('switch_online_remote', self.online_local, self.online_remote), secsgem.common.Transition('remote_offline', [self.online, self.online_local, self.online_remote], self.host_offline), secsgem.common.Transition('remote_online', self.host_offline, self.online)]
     self.control.events.enter.register(self._on_control_state_control)
     self.offline.events.enter.register(self._on_control_state_offline)
     self.online.events.enter.register(self._on_control_state_online)
